@@ -513,6 +513,147 @@ def all_trace_programs():
       progs.append(st)
   return progs
 
+# ---- (I) API surface: evaluate / run, every return mode, every way of injecting symbols --------------------------------
+API_PROGRAMS = [
+  'A + 1', 'x = A + 1', 'x = A\ny = x * 2\nprint(x, y)\ny', 'print("hi")\nprint(K)', 'A = A + 1\nA', 'A = 10', 'A = 11',
+  'B.append(3)\nB', 'B = B + [3]', 'x = 1\ndel x\ny = 2', 'x = 1\ny = 2\ndel y', 'del A\nz = 1', '_p = 5\n__q = 6\n_p + __q',
+  'def f(a):\n  return a + A\nf(1)', 'def f(a):\n  return a + A\nz = f(2)\nprint(z)', 'class C:\n  v = A\nC.v',
+  'import math\nmath.floor(2.5)', 'for i in range(3):\n  print(i)\ni', 'x = [i * A for i in range(3)]\nx', 'x = y = A\nx + y',
+  'a, b = 1, 2\nb', 'x = {}\nx["k"] = K\nx', 'if A > 5:\n  r = "big"\nelse:\n  r = "small"\nr',
+  'try:\n  1/0\nexcept ZeroDivisionError:\n  r = "caught"\nr', 'x = 1\nx += A\nx', 'print(A, end="")\nNone', 'K', 'x = None',
+  'x = 1\nx = 2\nx = 3', 'with NULL:\n  w = 1\nw', '(lambda q: q + A)(1)', 'x = 0\nwhile x < 3:\n  x += 1\nx',
+  'print("a")\nx = 5\nprint("b")\nx', '', '# only a comment', 'pass', 'x = 1\npass', 'x = 1\nx', 'K = K + "!"\nprint(K)\nK',
+  'x = (A, B, K)\nx', 'x = A\nA = 0\nx', 'y = 3\n"just a string"', 'x = 1; y = 2; x + y', 'x: int = 4\nx', 'x = [1, 2]\nx[0] = A\nx',
+  'import sys\nsys.stdout.write("w")\n1', 'print("x" * 3)\nprint()\n2',
+]
+API_FORBIDDEN = [('x = 1', 'ASSIGN'), ('if A: pass', 'CONDITION'), ('for i in B: pass', 'LOOP'), ('len(B)', 'CALL'),
+                 ('try:\n  pass\nexcept Exception:\n  pass', 'EXCEPTION'), ('class C: pass', 'CLASS_DEFINITION'),
+                 ('def f(): pass', 'FUNCTION_DEFINITION'), ('import math', 'IMPORT')]
+API_MODES = ('result', 'stdout', 'inter')
+API_SYMS = ('g', 'c', 'cg', 'cc')
+API_APIS = ('evaluate', 'run0', 'runN', 'runS')
+
+def _api_symbols():
+  return dict(A=10, B=[1, 2], K='key', NULL=contextlib.nullcontext())
+
+def api_call(code, mode, symsrc, api, perm, scopes=()):
+  """Runs the program through the public API. -> ('ok', value) | ('err', exception)"""
+  parsing, permissions, execution, errors = py()
+  syms = _api_symbols()
+  kw = {}
+  if mode == 'stdout': kw['returns_stdout'] = True
+  if mode == 'inter': kw['outputs_intermediate'] = True
+  if perm is not None: kw['permission'] = perm
+  with contextlib.ExitStack() as st:
+    for sc in scopes:
+      st.enter_context(permissions.permission(sc))
+    if symsrc == 'g':
+      kw['global_vars'] = syms
+    elif symsrc == 'c':
+      st.enter_context(execution.context(**syms))
+    elif symsrc == 'cg':
+      st.enter_context(execution.context(A=-1, B=syms['B'], K='decoy', NULL=syms['NULL']))
+      kw['global_vars'] = dict(A=syms['A'], K=syms['K'])
+    else:
+      st.enter_context(execution.context(A=-1, K=syms['K'], NULL=syms['NULL']))
+      st.enter_context(execution.context(A=syms['A'], B=syms['B']))
+    try:
+      if api == 'evaluate':
+        return 'ok', execution.evaluate(code, **kw)
+      sb = {'run0': False, 'runN': None, 'runS': True}[api]
+      return 'ok', execution.run(code, sandbox=sb, timeout=20, **kw)
+    except BaseException as e:   # noqa
+      return 'err', e
+
+def api_oracle(code, mode, symsrc, api, perm_bits, flag_order):
+  """Result, captured output and intermediate variables must be those of plain execution of the same text."""
+  parsing, permissions, execution, errors = py()
+  hits = []
+  tag = '%s/%s' % (api, mode)
+  init = _api_symbols(); g2 = dict(init)
+  buf = io.StringIO(); plain_err = None
+  tree = ast.parse(code)
+  last = tree.body[-1] if tree.body else None
+  want = _OPAQUE
+  try:
+    with contextlib.redirect_stdout(buf):
+      if isinstance(last, (ast.Expr, ast.Assign)):
+        head = ast.Module(body=tree.body[:-1], type_ignores=[])
+        exec(compile(head, '', 'exec'), g2)
+        want_v = eval(compile(ast.Expression(last.value), '', 'eval'), g2)
+        if isinstance(last, ast.Assign):
+          g2['__v__'] = want_v
+          asg = ast.Module(body=[ast.Assign(targets=last.targets, value=ast.Name(id='__v__', ctx=ast.Load()))], type_ignores=[])
+          exec(compile(ast.fix_missing_locations(asg), '', 'exec'), g2)
+          del g2['__v__']
+        want = _plain(want_v)
+      else:
+        exec(compile(tree, '', 'exec'), g2)
+  except Exception as e:
+    plain_err = e
+  if plain_err is not None:
+    return hits      # error programs are sweep (H)
+  perm = None if perm_bits is None else perm_of_bits(perm_bits, flag_order)
+  st, out = api_call(code, mode, symsrc, api, perm)
+  if st == 'err':
+    if api == 'runS' and isinstance(out, errors.SerializationError):
+      return hits    # values that cannot cross the process boundary: documented behaviour of sandbox=True
+    hits.append(('C19/api/%s/raises' % tag, 'a program using only granted constructs raises %s: %s' % (type(out).__name__, str(out)[:120])))
+    return hits
+  stdout = buf.getvalue()
+  if mode == 'stdout':
+    if out != stdout:
+      hits.append(('C19/api/%s/stdout' % tag, 'returned output %r, plain execution prints %r' % (out, stdout)))
+  elif mode == 'result':
+    if last is None:
+      if out is not None:
+        hits.append(('C19/api/%s/result' % tag, 'empty program returns %r' % (out,)))
+    elif want is not _OPAQUE and _plain(out) != want:
+      hits.append(('C19/api/%s/result' % tag, 'returned %r, the last line evaluates to %r' % (out, want)))
+  else:
+    if not isinstance(out, dict):
+      hits.append(('C19/api/%s/not-a-dict' % tag, 'outputs_intermediate=True returned %r' % (out,)))
+      return hits
+    if last is None:
+      if out: hits.append(('C19/api/%s/variables' % tag, 'empty program reports %r' % (out,)))
+      return hits
+    if out.get('__stdout__') != stdout:
+      hits.append(('C19/api/%s/stdout' % tag, 'captured output %r, plain execution prints %r' % (out.get('__stdout__'), stdout)))
+    if want is not _OPAQUE and ('__result__' not in out or _plain(out['__result__']) != want):
+      hits.append(('C19/api/%s/result' % tag, '__result__ is %r, the last line evaluates to %r' % (out.get('__result__', '<absent>'), want)))
+    init_plain = {k: _plain(v) for k, v in _api_symbols().items()}
+    for k, v in g2.items():
+      if k == '__builtins__': continue
+      pv = _plain(v)
+      if pv is _OPAQUE: 
+        if k not in init and k not in out:
+          hits.append(('C19/api/%s/variable-missing' % tag, 'the program binds %s, it is not reported' % k))
+        continue
+      rebound = k not in init or (v is not init[k] and pv != init_plain.get(k))
+      if rebound and (k not in out or _plain(out[k]) != pv):
+        hits.append(('C19/api/%s/variables' % tag, 'variable %s is %r after plain execution, reported %r' % (k, v, out.get(k, '<absent>'))))
+    for k, v in out.items():
+      if k in ('__result__', '__stdout__'): continue
+      if k not in g2:
+        hits.append(('C19/api/%s/phantom-variable' % tag, 'reports %s = %r, which plain execution does not bind (or deletes)' % (k, v)))
+      elif _plain(g2[k]) is not _OPAQUE and _plain(v) != _plain(g2[k]):
+        hits.append(('C19/api/%s/variables' % tag, 'variable %s is %r after plain execution, reported %r' % (k, g2[k], v)))
+  return hits
+
+def api_forbidden_oracle(code, flag, api, how, flag_order):
+  """A forbidden construct must be refused with a code error on every entry point (argument, scope, scope + wider argument)."""
+  parsing, permissions, execution, errors = py()
+  allb = (1 << len(flag_order)) - 1
+  lack = perm_of_bits(allb & ~(1 << flag_order.index(flag)), flag_order)
+  full = perm_of_bits(allb, flag_order)
+  perm, scopes = {'arg': (lack, ()), 'scope': (None, (lack,)), 'scope+arg': (full, (lack,)), 'scope>scope': (None, (lack, full))}[how]
+  st, out = api_call(code, 'result', 'g', api, perm, scopes)
+  if st == 'err' and isinstance(out, errors.CodeError) and isinstance(out.cause, SyntaxError):
+    return []
+  return [('C19/api/%s/forbidden-runs/%s/%s' % (api, how, flag),
+           '%s without %s (%s): %s' % (code.split('\n')[0], flag, how, 'returned %r' % (out,) if st == 'ok' else 'raised %s' % type(out).__name__))]
+
+
 def parseable(snips):
   out = []
   for s in snips:
@@ -688,6 +829,29 @@ def run(ctx):
       ctx.count(('error', src, bits, tuple(scs)), nontrivial=True, kind='runtime-error')
   ctx.extra['runtime_error_programs'] = nerr
   ctx.extra['oracle_evaluations'] = ocount
+  # (I) API surface: every return mode x symbol source x entry point (evaluate / run in process / run sandboxed)
+  napi = 0
+  for code in API_PROGRAMS:
+    for mode in API_MODES:
+      for symsrc in API_SYMS:
+        for api in API_APIS:
+          if api == 'runS' and not (ctx.tier == 'thorough' or (symsrc == 'g' and mode != 'inter')):
+            continue
+          for pb in ((ALL, None) if api == 'evaluate' else (ALL,)):
+            napi += 1
+            for sig, what in api_oracle(code, mode, symsrc, api, pb, flag_order):
+              ctx.hit(sig, what, dict(api_case=dict(code=code, mode=mode, symsrc=symsrc, api=api, perm_bits=pb), flag_order=flag_order))
+    ctx.count(('api', code), nontrivial=True, kind='api-surface')
+  nforb = 0
+  for code, flag in API_FORBIDDEN:
+    if flag not in flag_order: continue
+    for api in API_APIS:
+      for how in ('arg', 'scope', 'scope+arg', 'scope>scope'):
+        nforb += 1
+        for sig, what in api_forbidden_oracle(code, flag, api, how, flag_order):
+          ctx.hit(sig, what, dict(api_forbidden=dict(code=code, flag=flag, api=api, how=how), flag_order=flag_order))
+  ctx.extra['api_surface_evaluations'] = napi
+  ctx.extra['api_forbidden_evaluations'] = nforb
   # violation search when something is broken and nothing was hit yet: withhold each flag on each snippet under evaluate
   if ctx.is_broken() and not ctx.hits:
     for s in snippets:
@@ -734,7 +898,14 @@ def replay(ctx, rp):
     st = [(k, v, [tuple(t) for t in ts], i) for k, v, ts, i in c['trace_program']]
     out, log = impl_trace(st); pout, plog = impl_trace(st, plain=True)
     return log == plog and out[2] == pout[2]
-  hits = oracle(c['code'], c['arg_bits'], c['scopes'], c['flag_order'])
+  if c.get('api_case'):
+    a = c['api_case']
+    hits = api_oracle(a['code'], a['mode'], a['symsrc'], a['api'], a['perm_bits'], c['flag_order'])
+  elif c.get('api_forbidden'):
+    a = c['api_forbidden']
+    hits = api_forbidden_oracle(a['code'], a['flag'], a['api'], a['how'], c['flag_order'])
+  else:
+    hits = oracle(c['code'], c['arg_bits'], c['scopes'], c['flag_order'])
   for h in hits:
     print('  still fails:', h)
   return not hits
